@@ -30,7 +30,7 @@ def errName : Err → String
   | .tooManyTargets => "tooManyTargets" | .unknownQubit => "unknownQubit"
   | .noBasis => "noBasis" | .alignUnknown => "alignUnknown" | .alignDup => "alignDup"
   | .alignFew => "alignFew" | .badMeasBasis => "badMeasBasis" | .noDmm => "noDmm"
-  | .badPulse => "badPulse" | .oracleMiss _ _ _ => "oracleMiss"
+  | .badPulse => "badPulse" | .nonFinite => "nonFinite" | .oracleMiss _ _ _ => "oracleMiss"
 
 def parseBasis? : String → Option Basis
   | "gr" => some .groundRydberg | "dg" => some .digital | "xy" => some .xy | _ => none
@@ -61,6 +61,8 @@ def showName : ChName → String
 def parseSum? (s : String) : Option PulseSummary := do
   match ← parseList? parseRat? s with
   | [a, b, c, d, e] => pure { maxAmp := a, avgAmp := b, maxAbsDetR := c, maxDetR := d, minDetR := e }
+  | [a, b, c, d, e, f] =>
+    pure { maxAmp := a, avgAmp := b, maxAbsDetR := c, maxDetR := d, minDetR := e, finite := decide (f ≠ 0) }
   | _ => none
 
 def parseCfg? (t : List String) : Option ChanCfg :=
@@ -100,6 +102,9 @@ def parseEomIn? (t : List String) : Option EomIn :=
       match l with
       | [a, b, c, d, e] =>
         some ({ maxAmp := a, avgAmp := b, maxAbsDetR := c, maxDetR := d, minDetR := e } : PulseSummary)
+      | [a, b, c, d, e, f] =>
+        some ({ maxAmp := a, avgAmp := b, maxAbsDetR := c, maxDetR := d, minDetR := e,
+                finite := decide (f ≠ 0) } : PulseSummary)
       | _ => none
     pure { amp := ← parseRat? amp, detOn := ← parseRat? detOn, optimal := ← parseRat? optimal,
            corr := ← parseBool? corr, opts := ← parseList? parseRat? opts,
